@@ -67,7 +67,7 @@ impl<T: Read> ReadInputSource<T> {
                 found = true;
             }
         }
-        Ok(String::from_utf8(buf).unwrap())
+        Ok(bytes_to_string(buf))
     }
 
     fn read_until<F>(&mut self, predicate: F) -> std::io::Result<String>
@@ -93,8 +93,15 @@ impl<T: Read> ReadInputSource<T> {
                 }
             }
         }
-        Ok(String::from_utf8(buf).unwrap())
+        Ok(bytes_to_string(buf))
     }
+}
+
+/// Converts the bytes that were read into a string.
+/// Bytes that are not valid UTF-8 are taken one by one as characters,
+/// the same way `CHR$` maps a code to a character.
+fn bytes_to_string(buf: Vec<u8>) -> String {
+    String::from_utf8(buf).unwrap_or_else(|e| e.into_bytes().iter().map(|b| *b as char).collect())
 }
 
 impl<T: Read> Input for ReadInputSource<T> {
